@@ -273,8 +273,12 @@ class Spec(core.PropSpec):
                            "python shutil/zipfile/pathlib on the fake os"],
                   "stub": ["kernel file system (pyfakefs 6.2.0, vendored) with intercepted mutation primitives",
                            "joblib.Parallel (baton-scheduled threads yielding at FS primitives)"]}
-    tiers = {"quick": dict(runs=320, budget_s=45), "thorough": dict(runs=16000, budget_s=900)}
+    tiers = {"quick": dict(runs=256, budget_s=40), "thorough": dict(runs=16000, budget_s=900)}
     determinism_sample = 4
+
+    def extra_evidence(self, tier, seed):
+        sv = validate_against_real_fs(12 if tier == "quick" else 120, seed)
+        return {"stub_validation": sv, "traces_validated_against_impl": sv["fault_free_worlds_compared_with_real_file_system"]}
 
     def gen_plan(self, seed, tier):
         st = core.Streams(seed)
@@ -285,6 +289,7 @@ class Spec(core.PropSpec):
         if mode == "sweep":
             plan["sweep_only"] = None
             plan["k1s"] = [rf.randint(0, 40), rf.randint(0, 12)]
+            plan["sweep_io_errors"] = rf.random() < 0.35  # additionally EIO / ENOSPC at every primitive
         else:
             plan["attempts"] = [gen_fault(rf, 45) for _ in range(rf.choice([1, 1, 2, 2, 3, 4]))]
             plan["clean_calls"] = rf.choice([1, 2, 2, 3])
@@ -297,17 +302,19 @@ class Spec(core.PropSpec):
             for k in range(0, 160):
                 yield dict(plan, sweep_only=[["k", k]])
                 yield dict(plan, sweep_only=[["t", k]])
+                if plan.get("sweep_io_errors"):
+                    yield dict(plan, sweep_only=[["e", k]])
             for i in range(len(plan["k1s"])):
                 for k2 in range(0, 160):
                     yield dict(plan, sweep_only=[["kk", plan["k1s"][i], k2]])
             return
-        if plan["mode"] == "sweep" and plan["sweep_only"] and plan["sweep_only"][0][0] in ("k", "t", "kk"):
+        if plan["mode"] == "sweep" and plan["sweep_only"] and plan["sweep_only"][0][0] in ("k", "t", "kk", "e"):
             so = plan["sweep_only"][0]
             if so[0] == "kk":
                 yield dict(world=w, mode="sequence", list_seed=plan["list_seed"], sched_seed=plan["sched_seed"],
                            attempts=[dict(kind="kill", at=so[1]), dict(kind="kill", at=so[2])], clean_calls=2)
             else:
-                f = dict(kind="kill" if so[0] == "k" else "torn", at=so[1])
+                f = dict(kind={"k": "kill", "t": "torn", "e": "eio" if so[1] % 2 else "enospc"}[so[0]], at=so[1])
                 if so[0] == "t":
                     f["frac"] = 0.5
                 yield dict(world=w, mode="sequence", list_seed=plan["list_seed"], sched_seed=plan["sched_seed"],
@@ -421,14 +428,17 @@ class Spec(core.PropSpec):
             for k1 in plan["k1s"]:
                 if n:
                     points.append(["kk*", k1 % n])
+            if plan.get("sweep_io_errors"):
+                points += [["e", k] for k in range(n)]
         else:
             points = only
         out.count("sweep:single_crash_points_enumerated", sum(1 for p in points if p[0] == "k"))
+        out.count("sweep:io_error_points_enumerated", sum(1 for p in points if p[0] == "e"))
         for pt in points:
             wipe_local(m, w)
             st = State(w, expected)
-            if pt[0] in ("k", "t"):
-                f = dict(kind="kill" if pt[0] == "k" else "torn", at=pt[1], frac=0.5)
+            if pt[0] in ("k", "t", "e"):
+                f = dict(kind={"k": "kill", "t": "torn", "e": "eio" if pt[1] % 2 else "enospc"}[pt[0]], at=pt[1], frac=0.5)
                 att, hist = do(st, f, [], "faulty")
                 att, hist = do(st, None, hist, "clean")
                 att, hist = do(st, None, hist, "clean")
@@ -451,6 +461,82 @@ class Spec(core.PropSpec):
                     att, hist = do(st, None, hist, "clean")
                     att, hist = do(st, None, hist, "clean")
         out.nontrivial = self._fired_inside and self._judged
+
+
+def validate_against_real_fs(n_worlds, seed):
+    """fault-free copies of seeded worlds on the REAL file system (temporary directory, real joblib) must produce the same
+    tree and the same result object as on the simulated file system - validates the pyfakefs stub, decides nothing"""
+    import random
+    import shutil
+    import tempfile
+    import zipfile
+    from simkit import env, simfs
+    env.import_kappadata()
+    from kappadata.copying.folder import copy_folder_from_global_to_local
+    from kappadata.copying.image_folder import copy_imagefolder_from_global_to_local
+    import kappadata.copying.copying_utils as cu
+    rng = random.Random(f"c20-realfs/{seed}")
+    compared, mism = 0, []
+    for _ in range(n_worlds):
+        w = gen_world(rng)
+        w["dst_initial"] = "absent"
+        w["num_workers"] = rng.choice([0, 0, 2])
+        fn = copy_folder_from_global_to_local if w["fn"] == "folder" else copy_imagefolder_from_global_to_local
+        # --- simulated
+        saved = cu.joblib
+        cu.joblib = simfs.FakeJoblib
+        try:
+            with simfs.SimMachine() as m:
+                build_source(m, w)
+                gp, lp, src, dst = paths(w)
+                att = m.attempt(lambda: fn(gp, lp, relative_path=w["relative"], num_workers=w["num_workers"]))
+                sim_tree = simfs.snapshot(dst)
+                sim_res = repr(att["result"])
+        finally:
+            cu.joblib = saved
+        # --- real
+        root = tempfile.mkdtemp(prefix="kd_c20_real_")
+        try:
+            gp, lp, src, dst = [root + p for p in paths(w)]
+            if w["fmt"] == "raw":
+                for p, sz, b in w["files"]:
+                    os.makedirs(os.path.dirname(f"{src}/{p}"), exist_ok=True)
+                    open(f"{src}/{p}", "wb").write(content(sz, b))
+                for d in w["empty_dirs"]:
+                    os.makedirs(f"{src}/{d}", exist_ok=True)
+            elif w["fmt"] == "zip":
+                os.makedirs(os.path.dirname(src), exist_ok=True)
+                with zipfile.ZipFile(src + ".zip", "w") as z:
+                    for p, sz, b in w["files"]:
+                        z.writestr(p, content(sz, b))
+            else:
+                os.makedirs(src, exist_ok=True)
+                nz = max(1, min(w["n_zips"], len(w["files"])))
+                groups = [[] for _ in range(nz)]
+                for i, f in enumerate(w["files"]):
+                    groups[i % nz].append(f)
+                for j, g in enumerate(groups):
+                    with zipfile.ZipFile(f"{src}/part{j}.zip", "w") as z:
+                        for p, sz, b in g:
+                            z.writestr(p, content(sz, b))
+                if w["readme"] and nz >= 2:
+                    open(f"{src}/README.md", "wb").write(b"about")
+            try:
+                res = fn(gp, lp, relative_path=w["relative"], num_workers=w["num_workers"])
+                real_tree = simfs.snapshot(dst)
+                real_res = repr(res)
+            except Exception as e:
+                real_tree, real_res = None, f"raised {type(e).__name__}"
+        finally:
+            shutil.rmtree(root, ignore_errors=True)
+        compared += 1
+        if att["status"] != "ok" or real_tree is None:
+            # the racy makedirs of parallel extraction may raise on either side; only completed copies are compared
+            compared -= 1
+            continue
+        if sim_tree != real_tree or sim_res != real_res:
+            mism.append(dict(world={k: w[k] for k in ("fn", "fmt", "relative", "num_workers")}, sim=sim_res, real=real_res))
+    return dict(fault_free_worlds_compared_with_real_file_system=compared, mismatches=len(mism), examples=mism[:2])
 
 
 SPEC = Spec()
